@@ -1,4 +1,5 @@
 import CfrVerif.Proofs.PresetSpec
+import CfrVerif.Proofs.PresetScalarCore
 /-!
 # Scalar part of the discounted-preset analysis: one infoset, one action
 
@@ -7,6 +8,7 @@ For each discounted preset the `t^γ`-weighted regret of every action at an info
 discounted cumulative regrets; the potential argument bounds their positive part).
 -/
 set_option linter.unusedSectionVars false
+set_option linter.unusedVariables false
 namespace Cfr
 
 /-- the extra constant of a preset (multiplies `D`) -/
@@ -16,29 +18,262 @@ def presetConst : Nat → ℝ
   | 2 => 2      -- dcfr
   | _ => 250    -- dcfr-prune
 
+namespace PS
+
+theorem two_eq : (two : ℝ) = 2 := by norm_num [two]
+theorem half_eq : (half : ℝ) = 1 / 2 := by norm_num [half]
+
+theorem wgt_one (t : ℕ) : wgt 1 t = t := by simp [wgt]
+theorem wgt_two (t : ℕ) : wgt two t = (t : ℝ) ^ 2 := by
+  rw [wgt, two_eq]; exact Real.rpow_two _
+
+theorem H1_of (t c : ℝ) (ht : 0 ≤ t) (hc : t ≤ c) : t ^ 2 ≤ (t + 1) ^ 2 * (c / (c + 1)) := by
+  have hc0 : 0 ≤ c := le_trans ht hc
+  have := mul_le_mul_of_nonneg_left hc ht
+  rw [← mul_div_assoc, le_div_iff₀ (by linarith)]
+  nlinarith
+
+/-- (H1) for the positive exponent `3/2` of DCFR and DCFR-prune -/
+theorem H1_dcfr (t : ℕ) (ht : 1 ≤ t) :
+    wgt two t ≤ wgt two (t + 1) * genDiscount t (.fin ((1 : ℝ) + half)) := by
+  have h1 : (1 : ℝ) ≤ t := by exact_mod_cast ht
+  rw [genDiscount_closed_form t ht, wgt_two, wgt_two]
+  push_cast
+  apply H1_of _ _ (by linarith)
+  calc (t : ℝ) = (t : ℝ) ^ (1 : ℝ) := (Real.rpow_one _).symm
+    _ ≤ (t : ℝ) ^ ((1 : ℝ) + half) :=
+      Real.rpow_le_rpow_of_exponent_le h1 (by rw [half_eq]; norm_num)
+
+theorem kap_dcfr (t : ℕ) :
+    kap (wgt two) (fun t => genDiscount t (.fin (0 : ℝ))) t
+      = max 0 (((t : ℝ) + 1) ^ 2 * (1 / 2) - (t : ℝ) ^ 2) := by
+  simp only [kap, wgt_two, genDiscount_zero]
+  push_cast
+  rfl
+
+/-- the numeric bounds of the DCFR terms (index shifted by one) -/
+noncomputable def cDcfr (t : ℕ) : ℝ := if t = 0 then 1 else if t = 1 then 3 / 4 else 0
+
+theorem prune_ineq (s : ℝ) (hs0 : 0 ≤ s) (hs : 5 ≤ s ^ 2) :
+    (s ^ 2 + 1) ^ 2 * (s / (s + 1)) ≤ (s ^ 2) ^ 2 := by
+  have h1 : (2.23 : ℝ) ≤ s := by nlinarith
+  have h2 : 5 * (2.23 - 2 : ℝ) ≤ s ^ 2 * (s - 2) :=
+    mul_le_mul hs (by linarith) (by norm_num) (by positivity)
+  have h3 : 2 * s ^ 2 + 1 ≤ s ^ 3 := by nlinarith
+  have h4 := mul_le_mul_of_nonneg_left h3 hs0
+  rw [← mul_div_assoc, div_le_iff₀ (by linarith)]
+  nlinarith
+
+theorem gen_half (t : ℕ) (ht : 1 ≤ t) :
+    genDiscount t (.fin (half : ℝ)) = Real.sqrt t / (Real.sqrt t + 1) := by
+  rw [genDiscount_closed_form t ht, half_eq, ← Real.sqrt_eq_rpow]
+
+theorem kap_prune_zero (t : ℕ) (ht : 5 ≤ t) :
+    kap (wgt two) (fun t => genDiscount t (.fin (half : ℝ))) t = 0 := by
+  simp only [kap, wgt_two]
+  rw [gen_half t (by omega)]
+  apply max_eq_left
+  have h5 : (5 : ℝ) ≤ t := by exact_mod_cast ht
+  have hsq : Real.sqrt t ^ 2 = t := Real.sq_sqrt (by linarith)
+  have := prune_ineq (Real.sqrt t) (Real.sqrt_nonneg _) (by rw [hsq]; exact h5)
+  rw [hsq] at this
+  push_cast
+  linarith
+
+theorem kap_prune_le (t : ℕ) (ht : 1 ≤ t) :
+    kap (wgt two) (fun t => genDiscount t (.fin (half : ℝ))) t ≤ 2 * (t : ℝ) + 1 := by
+  simp only [kap, wgt_two]
+  have hu := (genDiscount_mem_unit t ht (.fin (half : ℝ))).2
+  have ht0 : (0 : ℝ) ≤ t := Nat.cast_nonneg t
+  apply max_le (by linarith)
+  push_cast
+  have : ((t : ℝ) + 1) ^ 2 * genDiscount t (.fin (half : ℝ)) ≤ ((t : ℝ) + 1) ^ 2 * 1 :=
+    mul_le_mul_of_nonneg_left hu (by positivity)
+  nlinarith
+
+/-- the numeric bounds of the DCFR-prune terms (index shifted by one) -/
+noncomputable def cPrune (t : ℕ) : ℝ :=
+  if t < 4 then (2 * ((t + 1 : ℕ) : ℝ) + 1) * ((t + 1 : ℕ) : ℝ) else 0
+
+/-- `(T+1)^{γ+1} ≤ T^{γ+1} + (γ+1)·(T+1)^γ` (Bernoulli) -/
+theorem bernoulli_step (γ : ℝ) (hγ : 0 ≤ γ) (T : ℕ) :
+    ((T + 1 : ℕ) : ℝ) ^ (γ + 1) ≤ (T : ℝ) ^ (γ + 1) + ((T + 1 : ℕ) : ℝ) ^ γ * (γ + 1) := by
+  push_cast
+  have hT : (0 : ℝ) ≤ T := Nat.cast_nonneg T
+  have hu : (0 : ℝ) < (T : ℝ) + 1 := by linarith
+  have hB := one_add_mul_self_le_rpow_one_add (s := -1 / ((T : ℝ) + 1))
+    (by rw [le_div_iff₀ hu]; linarith) (p := γ + 1) (by linarith)
+  have e1 : 1 + -1 / ((T : ℝ) + 1) = (T : ℝ) / ((T : ℝ) + 1) := by field_simp; ring
+  rw [e1, Real.div_rpow hT hu.le] at hB
+  have hup : 0 < ((T : ℝ) + 1) ^ (γ + 1) := Real.rpow_pos_of_pos hu _
+  have e2 : ((T : ℝ) + 1) ^ (γ + 1) = ((T : ℝ) + 1) ^ γ * ((T : ℝ) + 1) := Real.rpow_add_one hu.ne' γ
+  rw [le_div_iff₀ hup] at hB
+  have e3 : (1 + (γ + 1) * (-1 / ((T : ℝ) + 1))) * ((T : ℝ) + 1) ^ (γ + 1)
+      = ((T : ℝ) + 1) ^ (γ + 1) - (γ + 1) * ((T : ℝ) + 1) ^ γ := by
+    rw [e2]; field_simp; ring
+  rw [e3] at hB
+  linarith
+
+end PS
+open PS
+
 theorem lcfr_weighted_regret (n : Nat) (hn : 1 ≤ n) (D : ℝ) (hD : 0 ≤ D) (T : Nat)
     (tr : RMTrace RegretParams.lcfr n D T) (a : Nat) (ha : a < n) :
     tr.weightedRegret a ≤ (T : ℝ) ^ (1 : ℝ) * (D * Real.sqrt (n * T)) + presetConst 0 * D := by
-  sorry
+  have hg : ∀ t : ℕ, 1 ≤ t → genDiscount t (.fin (1 : ℝ)) = (t : ℝ) / ((t : ℝ) + 1) := by
+    intro t ht
+    rw [genDiscount_closed_form t ht, Real.rpow_one]
+  have h := trace_kap_zero hD tr a ha
+    (by
+      intro t ht _
+      have htpos : (0 : ℝ) < t := by exact_mod_cast ht
+      show wgt 1 t ≤ wgt 1 (t + 1) * genDiscount t (.fin (1 : ℝ))
+      rw [hg t ht, wgt_one, wgt_one]
+      push_cast
+      rw [mul_div_cancel₀ _ (by positivity)])
+    (by
+      intro t ht _
+      have htpos : (0 : ℝ) < t := by exact_mod_cast ht
+      show wgt 1 (t + 1) * genDiscount t (.fin (1 : ℝ)) ≤ wgt 1 t
+      rw [hg t ht, wgt_one, wgt_one]
+      push_cast
+      rw [mul_div_cancel₀ _ (by positivity)])
+  have e : (RegretParams.lcfr : RegretParams ℝ).strat = 1 := rfl
+  rw [e] at h
+  simpa [presetConst] using h
 
 theorem cfrPlus_weighted_regret (n : Nat) (hn : 1 ≤ n) (D : ℝ) (hD : 0 ≤ D) (T : Nat)
     (tr : RMTrace RegretParams.cfrPlus n D T) (a : Nat) (ha : a < n) :
     tr.weightedRegret a ≤ (T : ℝ) ^ (2 : ℝ) * (D * Real.sqrt (n * T)) + presetConst 1 * D := by
-  sorry
+  have h := trace_kap_zero hD tr a ha
+    (by
+      intro t ht _
+      show wgt two t ≤ wgt two (t + 1) * genDiscount t (.posInf : Ext ℝ)
+      rw [genDiscount_posInf, wgt_two, wgt_two]
+      push_cast
+      have : (0 : ℝ) ≤ t := Nat.cast_nonneg t
+      nlinarith)
+    (by
+      intro t ht _
+      show wgt two (t + 1) * genDiscount t (.negInf : Ext ℝ) ≤ wgt two t
+      rw [genDiscount_negInf, mul_zero]
+      exact wgt_nonneg _ _)
+  have e : (RegretParams.cfrPlus : RegretParams ℝ).strat = 2 := two_eq
+  rw [e] at h
+  simpa [presetConst] using h
 
 theorem dcfr_weighted_regret (n : Nat) (hn : 1 ≤ n) (D : ℝ) (hD : 0 ≤ D) (T : Nat)
     (tr : RMTrace RegretParams.dcfr n D T) (a : Nat) (ha : a < n) :
     tr.weightedRegret a ≤ (T : ℝ) ^ (2 : ℝ) * (D * Real.sqrt (n * T)) + presetConst 2 * D := by
-  sorry
+  have h := trace_abel hD tr a ha (fun t ht _ => H1_dcfr t ht)
+  have e : (RegretParams.dcfr : RegretParams ℝ).strat = 2 := two_eq
+  obtain ⟨hm1, hms⟩ := trace_neg tr a ha
+  have hK : ∑ t ∈ Finset.range (T - 1),
+      kap (wgt two) (fun t => genDiscount t (.fin (0 : ℝ))) (t + 1)
+        * max (-(ypre tr a (t + 1))) 0 ≤ ∑ t ∈ Finset.range 2, cDcfr t * D := by
+    apply sum_le_of_eventually_zero
+    · intro t ht
+      rw [kap_dcfr]
+      rcases Nat.lt_or_ge t 2 with h2 | h2
+      · have hm1' := hm1 (by omega)
+        have hm0 : 0 ≤ max (-(ypre tr a 1)) 0 := le_max_right _ _
+        rcases (by omega : t = 0 ∨ t = 1) with rfl | rfl
+        · have : max (0 : ℝ) ((((0 + 1 : ℕ) : ℝ) + 1) ^ 2 * (1 / 2) - ((0 + 1 : ℕ) : ℝ) ^ 2) = 1 := by
+            norm_num
+          rw [this]
+          simpa [cDcfr] using hm1'
+        · have : max (0 : ℝ) ((((1 + 1 : ℕ) : ℝ) + 1) ^ 2 * (1 / 2) - ((1 + 1 : ℕ) : ℝ) ^ 2)
+              = 1 / 2 := by
+            norm_num
+          rw [this]
+          have h2' := hms 1 (le_refl _) (by omega)
+          have : genDiscount 1 (RegretParams.dcfr : RegretParams ℝ).negRegret = 1 / 2 :=
+            genDiscount_zero 1
+          rw [this] at h2'
+          simp only [cDcfr]
+          norm_num
+          linarith
+      · have ht3 : (3 : ℝ) ≤ ((t + 1 : ℕ) : ℝ) := by exact_mod_cast (by omega : 3 ≤ t + 1)
+        have : max (0 : ℝ) ((((t + 1 : ℕ) : ℝ) + 1) ^ 2 * (1 / 2) - ((t + 1 : ℕ) : ℝ) ^ 2) = 0 := by
+          apply max_eq_left
+          nlinarith
+        rw [this, zero_mul]
+        have : cDcfr t = 0 := by
+          unfold cDcfr
+          rw [if_neg (by omega), if_neg (by omega)]
+        rw [this, zero_mul]
+    · intro t
+      unfold cDcfr
+      split_ifs <;> positivity
+    · intro t ht
+      unfold cDcfr
+      rw [if_neg (by omega), if_neg (by omega), zero_mul]
+  have hK2 : ∑ t ∈ Finset.range 2, cDcfr t * D ≤ 2 * D := by
+    simp only [Finset.sum_range_succ, Finset.sum_range_zero, cDcfr]
+    norm_num
+    linarith
+  have h' := le_trans h (add_le_add le_rfl (le_trans hK hK2))
+  rw [e] at h'
+  simpa [presetConst] using h'
 
 theorem dcfrPrune_weighted_regret (n : Nat) (hn : 1 ≤ n) (D : ℝ) (hD : 0 ≤ D) (T : Nat)
     (tr : RMTrace RegretParams.dcfrPrune n D T) (a : Nat) (ha : a < n) :
     tr.weightedRegret a ≤ (T : ℝ) ^ (2 : ℝ) * (D * Real.sqrt (n * T)) + presetConst 3 * D := by
-  sorry
+  have h := trace_abel hD tr a ha (fun t ht _ => H1_dcfr t ht)
+  have e : (RegretParams.dcfrPrune : RegretParams ℝ).strat = 2 := two_eq
+  obtain ⟨hm1, hms⟩ := trace_neg tr a ha
+  have hlin := neg_linear T D (fun t => max (-(ypre tr a t)) 0)
+    (fun t => genDiscount t (RegretParams.dcfrPrune : RegretParams ℝ).negRegret) hm1 hms
+    (fun _ => le_max_right _ _) (fun t h1 _ => (genDiscount_mem_unit t h1 _).2)
+  have hK : ∑ t ∈ Finset.range (T - 1),
+      kap (wgt two) (fun t => genDiscount t (.fin (half : ℝ))) (t + 1)
+        * max (-(ypre tr a (t + 1))) 0 ≤ ∑ t ∈ Finset.range 4, cPrune t * D := by
+    apply sum_le_of_eventually_zero
+    · intro t ht
+      have hm0 : 0 ≤ max (-(ypre tr a (t + 1))) 0 := le_max_right _ _
+      rcases Nat.lt_or_ge t 4 with h4 | h4
+      · have hk := kap_prune_le (t + 1) (by omega)
+        have hk0 : 0 ≤ kap (wgt two) (fun t => genDiscount t (.fin (half : ℝ))) (t + 1) :=
+          le_max_left _ _
+        have hl : max (-(ypre tr a (t + 1))) 0 ≤ ((t + 1 : ℕ) : ℝ) * D :=
+          hlin (t + 1) (by omega) (by omega)
+        have : cPrune t = (2 * ((t + 1 : ℕ) : ℝ) + 1) * ((t + 1 : ℕ) : ℝ) := by
+          unfold cPrune; rw [if_pos h4]
+        rw [this]
+        calc _ ≤ (2 * ((t + 1 : ℕ) : ℝ) + 1) * (((t + 1 : ℕ) : ℝ) * D) :=
+              mul_le_mul hk hl hm0 (by positivity)
+          _ = _ := by ring
+      · rw [kap_prune_zero (t + 1) (by omega), zero_mul]
+        have : cPrune t = 0 := by
+          unfold cPrune; rw [if_neg (by omega)]
+        rw [this, zero_mul]
+    · intro t
+      unfold cPrune
+      split_ifs <;> positivity
+    · intro t ht
+      unfold cPrune
+      rw [if_neg (by omega), zero_mul]
+  have hK2 : ∑ t ∈ Finset.range 4, cPrune t * D ≤ 250 * D := by
+    simp only [Finset.sum_range_succ, Finset.sum_range_zero, cPrune]
+    norm_num
+    linarith
+  have h' := le_trans h (add_le_add le_rfl (le_trans hK hK2))
+  rw [e] at h'
+  simpa [presetConst] using h'
 
 /-- the sum of the weights: `Σ_{t ≤ T} t^γ ≥ T^{γ+1}/(γ+1)` -/
 theorem weightTotal_ge (γ : ℝ) (hγ : 0 ≤ γ) (T : Nat) :
     (T : ℝ) ^ (γ + 1) / (γ + 1) ≤ weightTotal γ T := by
-  sorry
+  unfold weightTotal
+  rw [list_sum_range_map]
+  have hγ1 : 0 < γ + 1 := by linarith
+  induction T with
+  | zero =>
+    simp [Real.zero_rpow hγ1.ne']
+  | succ T ih =>
+    rw [Finset.sum_range_succ]
+    refine le_trans ?_ (add_le_add ih le_rfl)
+    rw [div_add' _ _ _ hγ1.ne', div_le_div_iff_of_pos_right hγ1]
+    exact PS.bernoulli_step γ hγ T
 
 end Cfr
